@@ -19,6 +19,11 @@ Tie, three layers, all on the real classes of `ctx.repo`:
     the very instant (and ±1 tick / ±1–2 ms) at which the other broker's long-poll expires, or
     together with a leader move that makes the other broker answer NOT_LEADER — both fetch answers
     reach the consumer in the same loop iteration; the blocked call must return within 5 virtual s.
+    A second deterministic family (cons_sim.c03sub_plans): partitions sharing a leader of which the
+    application polls only a subset (`getone(B)` / `getmany(B)` / a slow loop) while the others keep
+    prefetched data buffered; the polled ones must reach their log ends within 30 virtual s.  A
+    livelock of the client's fetch loop (thousands of rounds within virtual milliseconds) is caught
+    by cons_sim.spin_guard in every simulator run and reported as `c03:livelock`.
 Search: the property itself (`c03 holds`: Lean `holdsC03`) is evaluated on what the application
 saw against the ground-truth log, for every trace.
 """
